@@ -979,3 +979,29 @@ h_extend_iter!(c07_q_extend_bvd1n60_f8x2n10, 14, bvd1(60), f8x2(10), 256, wit_co
 h_extend_iter!(c07_q_extend_bvd2n120_bvd1n9, 13, bvd2(120), bvd1(9), 256, wit_con2);
 h_extend_iter!(c07_q_extend_bvfixn110_f8x2n10, 14, bvfix(110), f8x2(10), 256, wit_con2);
 h_extend_iter!(c07_t_extend_bvd1n64_bvfixn3, 7, bvd1(64), bvfix(3), 256, wit_con2);
+
+// ---- extend / collect from an iterator that under-reports its length (size_hint().0 == 0) -------
+// The dynamic and auto types must still grow as far as the iterator really goes, including the
+// inline -> heap switch of `Bv`, whatever `size_hint` says.
+macro_rules! h_extend_nohint {
+    ($name:ident, $unw:literal, $a:expr, $x:expr) => {
+        harness_cfs!($name, $unw, {
+            let (mut a, ra) = $a;
+            let (x, rx) = $x;
+            let n = ra.len;
+            let k = rx.len;
+            w!(k > 0 && rx.v.bit(k - 1), "last extended bit is one");
+            a.extend(x.iter().filter(|_| true));
+            let r = a.into_raw();
+            assert!(r.len == n + k, "C07: extend (no size hint): length != len + number of bits");
+            assert!(r.v == ra.v.or(rx.v.shl(n)), "C07: extend (no size hint): storage != v | bits << len");
+            assert!(r.len <= r.cap, "C07: len > capacity");
+        });
+    };
+}
+h_extend_nohint!(c07_q_extendnohint_f8x2n10_f8x1n5, 8, f8x2(10), f8x1(5));
+h_extend_nohint!(c07_q_extendnohint_bvfixn128_f8x1n1, 8, bvfix(128), f8x1(1));
+h_extend_nohint!(c07_q_extendnohint_bvfixn120_f8x1n8, 12, bvfix(120), f8x1(8));
+h_extend_nohint!(c07_q_extendnohint_bvd1n64_f8x1n1, 8, bvd1(64), f8x1(1));
+h_extend_nohint!(c07_t_extendnohint_bvfixn127_f8x1n2, 8, bvfix(127), f8x1(2));
+h_extend_nohint!(c07_t_extendnohint_bvd1n60_f8x1n8, 12, bvd1(60), f8x1(8));
